@@ -8,33 +8,57 @@
     (struct type, field path); "held" sets are the locks held LEXICALLY in the
     function at that point, the checker adds what every call path holds. *)
 From KP Require Import model.Base.
+Local Open Scope N_scope.
+
+(** Identifiers (struct types, field paths, function names, file names) are
+    interned by the translator: a fact mentions numbers, the generated file
+    also defines [names : list (N * str)].  The written discipline mentions
+    strings and is matched through that table. *)
+Definition id := N.
+Definition names := list (N * str).
+
+Fixpoint name_of (nm : names) (i : id) : str :=
+  match nm with
+  | [] => []
+  | (k, s) :: nm' => if N.eqb k i then s else name_of nm' i
+  end.
+
+(** 0 is never used by the translator: a string that does not occur in the
+    source maps to it *)
+Fixpoint id_of (nm : names) (s : str) : id :=
+  match nm with
+  | [] => 0
+  | (k, t) :: nm' => if str_eqb t s then k else id_of nm' s
+  end.
 
 Inductive rw := Rd | Wr.
 Inductive lmode := LR | LW.                 (* read (shared) / write (exclusive) mode *)
-Definition lockid := (str * str)%type.      (* struct type, mutex field *)
+Definition lockid := (id * id)%type.        (* struct type, mutex field *)
 Definition hlock := (lockid * lmode)%type.
 (** base object of an access / receiver of a call: private to the function
-    (freshly allocated there, or a struct value), the function's own receiver,
-    anything else *)
+    (freshly allocated there and not yet handed out, or a struct value), the
+    function's own receiver, anything else *)
 Inductive base := BLocal | BRecv | BShared.
 Inductive chanop := ChSend | ChRecv | ChClose.
-Definition pos := (str * nat)%type.         (* file, line *)
+Definition pos := (id * N)%type.            (* file, line *)
 
 Inductive fact :=
-| FFunc (f : str) (p : pos)
-| FRoot (f : str) (why : str)
-| FAccess (f st fld : str) (k : rw) (held : list hlock) (b : base) (p : pos)
-| FCall (f g : str) (held : list hlock) (recv : base) (p : pos)
-| FGo (f g : str) (p : pos)
-| FAcquire (f : str) (l : lockid) (m : lmode) (held : list hlock) (p : pos)
-| FChan (f : str) (op : chanop) (st fld : str) (held : list hlock) (p : pos)
-| FSync (f kind what : str) (p : pos)
-| FUnbalanced (f : str) (l : lockid) (p : pos).
+| FFunc (f : id) (p : pos)
+| FRoot (f : id) (why : id)
+| FAccess (f st fld : id) (k : rw) (held : list hlock) (b : base) (p : pos)
+| FCall (f g : id) (held : list hlock) (recv : base) (p : pos)
+| FGo (f g : id) (p : pos)
+| FAcquire (f : id) (l : lockid) (m : lmode) (held : list hlock) (p : pos)
+| FChan (f : id) (op : chanop) (st fld : id) (held : list hlock) (p : pos)
+| FSync (f kind what : id) (p : pos)
+| FUnbalanced (f : id) (l : lockid) (p : pos).
 
 (** * The written discipline *)
 
+Definition slock := (str * str)%type.       (* a lock, by name *)
+
 Inductive fclass :=
-| Guarded (l : lockid)      (* every shared access holds l: readers at least LR, writers LW *)
+| Guarded (l : slock)       (* every shared access holds l: readers at least LR, writers LW *)
 | Immutable                 (* never written outside construction *)
 | ByOrder (why : str)       (* ordered by go statement / WaitGroup / channel: by rule, not checked here *)
 | Confined (why : str).     (* object used by one goroutine (per request / per call): by rule *)
@@ -42,10 +66,11 @@ Inductive fclass :=
 Record discipline := mkDiscipline {
   d_fields : list (str * str * fclass);     (* struct, field path ("*" = any other field of the struct) *)
   d_ctors  : list str;                      (* functions whose receiver is a new, unpublished object by rule *)
-  d_closes : list (str * str * str * nat)   (* function, struct, channel field, number of close sites there *)
+  d_closes : list (str * str * str * N)     (* function, struct, channel field, number of close sites there *)
 }.
 
-Definition lock_eqb (a b : lockid) : bool := str_eqb (fst a) (fst b) && str_eqb (snd a) (snd b).
+Definition lock_eqb (a b : lockid) : bool := N.eqb (fst a) (fst b) && N.eqb (snd a) (snd b).
+Definition lock_id (nm : names) (l : slock) : lockid := (id_of nm (fst l), id_of nm (snd l)).
 
 Definition mode_le (need have : lmode) : bool :=
   match need, have with LR, _ => true | LW, LW => true | LW, LR => false end.
@@ -79,28 +104,40 @@ Fixpoint find_field (fl : list (str * str * fclass)) (st fld : str) : option fcl
 Fixpoint first_some {A} (l : list (option A)) : option A :=
   match l with [] => None | Some a :: _ => Some a | None :: l' => first_some l' end.
 
-Definition class_of (d : discipline) (st fld : str) : option fclass :=
+Definition class_of_str (d : discipline) (st fld : str) : option fclass :=
   first_some (map (find_field (d_fields d) st) (parents (length fld) fld ++ [bs "*"])).
+
+Definition class_of (nm : names) (d : discipline) (st fld : id) : option fclass :=
+  class_of_str d (name_of nm st) (name_of nm fld).
+
+Definition mem_id (x : id) (l : list id) : bool := existsb (N.eqb x) l.
 
 (** * Call graph: what every call path holds at function entry *)
 
-Definition is_root (fs : list fact) (f : str) : bool :=
-  existsb (fun x => match x with
-                    | FRoot g _ => str_eqb g f
-                    | FGo _ g _ => str_eqb g f
-                    | _ => false end) fs.
-
-Definition funcs (fs : list fact) : list str :=
+Definition funcs (fs : list fact) : list id :=
   flat_map (fun x => match x with FFunc f _ => [f] | _ => [] end) fs.
+
+Definition call_edges (fs : list fact) : list (id * id * list hlock * base) :=
+  flat_map (fun x => match x with FCall c g h b _ => [(c, g, h, b)] | _ => [] end) fs.
+
+(** concurrent roots: rule-based entry points and targets of go statements *)
+Definition root_names (fs : list fact) : list id :=
+  flat_map (fun x => match x with FRoot g _ => [g] | FGo _ g _ => [g] | _ => [] end) fs.
 
 (** entry map: functions reachable from a concurrent root, with the locks
     held on EVERY call path to them; absent = not reachable *)
-Definition emap := list (str * list hlock).
+Definition emap := list (id * list hlock).
 
-Fixpoint elookup (m : emap) (f : str) : option (list hlock) :=
+Fixpoint elookup (m : emap) (f : id) : option (list hlock) :=
   match m with
   | [] => None
-  | (g, h) :: m' => if str_eqb g f then Some h else elookup m' f
+  | (g, h) :: m' => if N.eqb g f then Some h else elookup m' f
+  end.
+
+Fixpoint eupdate (m : emap) (f : id) (h : list hlock) : emap :=
+  match m with
+  | [] => [(f, h)]
+  | (g, h') :: m' => if N.eqb g f then (g, h) :: m' else (g, h') :: eupdate m' f h
   end.
 
 Definition subset_h (a b : list hlock) : bool :=
@@ -111,22 +148,10 @@ Definition meet (a b : list hlock) : list hlock :=
   flat_map (fun x => if holds b (fst x) (snd x) then [x]
                      else if holds b (fst x) LR then [(fst x, LR)] else []) a.
 
-Definition call_edges (fs : list fact) : list (str * str * list hlock * base) :=
-  flat_map (fun x => match x with FCall c g h b _ => [(c, g, h, b)] | _ => [] end) fs.
-
-Definition root_names (fs : list fact) : list str :=
-  flat_map (fun x => match x with FRoot g _ => [g] | FGo _ g _ => [g] | _ => [] end) fs.
-
-Fixpoint eupdate (m : emap) (f : str) (h : list hlock) : emap :=
-  match m with
-  | [] => [(f, h)]
-  | (g, h') :: m' => if str_eqb g f then (g, h) :: m' else (g, h') :: eupdate m' f h
-  end.
-
 (** one pass over the call edges, updating in place (chaotic iteration,
     descending from "unreachable"); the result is only trusted through
     [eh_ok] below *)
-Definition eh_pass (es : list (str * str * list hlock * base)) (m : emap) : emap :=
+Definition eh_pass (es : list (id * id * list hlock * base)) (m : emap) : emap :=
   fold_left (fun m e => match e with (c, g, h, _) =>
                           match elookup m c with
                           | None => m
@@ -139,7 +164,7 @@ Definition eh_pass (es : list (str * str * list hlock * base)) (m : emap) : emap
 Fixpoint iter {A} (n : nat) (f : A -> A) (a : A) : A :=
   match n with O => a | S n' => iter n' f (f a) end.
 
-Definition eh_fuel : nat := 24.
+Definition eh_fuel : nat := 40.
 Definition entry_held (fs : list fact) : emap :=
   iter eh_fuel (eh_pass (call_edges fs)) (map (fun r => (r, [])) (root_names fs)).
 
@@ -164,91 +189,95 @@ Definition eh_ok (fs : list fact) (m : emap) : bool := forallb (eh_ok_fact m) fs
 
 (** * Construction phase: functions all of whose callers pass a private receiver *)
 
-Definition has_caller (es : list (str * str * list hlock * base)) (f : str) : bool :=
-  existsb (fun e => match e with (_, g, _, _) => str_eqb g f end) es.
+Definition has_caller (es : list (id * id * list hlock * base)) (f : id) : bool :=
+  existsb (fun e => match e with (_, g, _, _) => N.eqb g f end) es.
 
-Definition ctor_fn_ok (fs : list fact) (d : discipline) (cs : list str) (f : str) : bool :=
-  mem_str f (d_ctors d) ||
-  (negb (mem_str f (root_names fs)) && has_caller (call_edges fs) f &&
+Definition ctor_fn_ok (roots : list id) (es : list (id * id * list hlock * base)) (dc : list id) (cs : list id) (f : id) : bool :=
+  mem_id f dc ||
+  (negb (mem_id f roots) && has_caller es f &&
    forallb (fun e => match e with (c, g, _, b) =>
-                       if str_eqb g f then
-                         match b with BLocal => true | BRecv => mem_str c cs | BShared => false end
-                       else true end) (call_edges fs)).
+                       if N.eqb g f then
+                         match b with BLocal => true | BRecv => mem_id c cs | BShared => false end
+                       else true end) es).
 
-Definition ctor_pass (roots : list str) (es : list (str * str * list hlock * base)) (d : discipline) (cs : list str) : list str :=
-  filter (fun f => mem_str f (d_ctors d) ||
-                   (negb (mem_str f roots) && has_caller es f &&
-                    forallb (fun e => match e with (c, g, _, b) =>
-                                        if str_eqb g f then
-                                          match b with BLocal => true | BRecv => mem_str c cs | BShared => false end
-                                        else true end) es)) cs.
+Definition declared_ctors (nm : names) (d : discipline) : list id := map (id_of nm) (d_ctors d).
 
-Definition ctor_set (fs : list fact) (d : discipline) : list str :=
-  iter eh_fuel (ctor_pass (root_names fs) (call_edges fs) d) (funcs fs).
+Definition ctor_set (nm : names) (fs : list fact) (d : discipline) : list id :=
+  let roots := root_names fs in
+  let es := call_edges fs in
+  let dc := declared_ctors nm d in
+  iter eh_fuel (fun cs => filter (ctor_fn_ok roots es dc cs) cs) (funcs fs).
 
-Definition ctor_ok (fs : list fact) (d : discipline) (cs : list str) : bool :=
-  forallb (ctor_fn_ok fs d cs) cs.
+Definition ctor_ok (nm : names) (fs : list fact) (d : discipline) (cs : list id) : bool :=
+  forallb (ctor_fn_ok (root_names fs) (call_edges fs) (declared_ctors nm d) cs) cs.
 
-Definition exempt (cs : list str) (f : str) (b : base) : bool :=
-  match b with BLocal => true | BRecv => mem_str f cs | BShared => false end.
+Definition exempt (cs : list id) (f : id) (b : base) : bool :=
+  match b with BLocal => true | BRecv => mem_id f cs | BShared => false end.
 
 (** * check_guarded *)
 
 Inductive violation :=
-| VUnguarded (f st fld : str) (k : rw) (p : pos)     (* guarded field accessed without its guard *)
-| VImmutableWrite (f st fld : str) (p : pos)         (* immutable field written outside construction *)
-| VUndeclared (f st fld : str) (p : pos)             (* field without an entry in the discipline *)
-| VUnbalanced (f : str) (l : lockid) (p : pos)       (* lock/unlock the translator cannot pair *)
-| VClose (f st fld : str) (p : pos)                  (* close of a channel at an unlisted site *)
-| VAnalysis (what : str).                            (* fixpoint not reached within the fuel *)
+| VUnguarded (f st fld : id) (k : rw) (p : pos)      (* guarded field accessed without its guard *)
+| VImmutableWrite (f st fld : id) (p : pos)          (* immutable field written outside construction *)
+| VUndeclared (f st fld : id) (p : pos)              (* field without an entry in the discipline *)
+| VUnbalanced (f : id) (l : lockid) (p : pos)        (* lock/unlock the translator cannot pair *)
+| VClose (f st fld : id) (p : pos)                   (* close of a channel at an unlisted site *)
+| VAnalysis (what : N).                              (* 1: entry-held map not closed; 2: construction set not stable *)
 
-Definition count_closes (fs : list fact) (f st fld : str) : nat :=
-  length (filter (fun x => match x with
-                           | FChan g ChClose s c _ _ => str_eqb g f && str_eqb s st && str_eqb c fld
-                           | _ => false end) fs).
+Definition count_closes (fs : list fact) (f st fld : id) : N :=
+  N.of_nat (length (filter (fun x => match x with
+                           | FChan g ChClose s c _ _ => N.eqb g f && N.eqb s st && N.eqb c fld
+                           | _ => false end) fs)).
 
-Definition close_listed (fs : list fact) (d : discipline) (f st fld : str) : bool :=
+Definition close_listed (nm : names) (fs : list fact) (d : discipline) (f st fld : id) : bool :=
   existsb (fun e => match e with (g, s, c, n) =>
-                      str_eqb g f && str_eqb s st && str_eqb c fld && Nat.eqb (count_closes fs f st fld) n end)
+                      N.eqb (id_of nm g) f && N.eqb (id_of nm s) st && N.eqb (id_of nm c) fld &&
+                      N.eqb (count_closes fs f st fld) n end)
           (d_closes d).
 
-Definition viol_of_fact (fs : list fact) (d : discipline) (m : emap) (cs : list str) (x : fact) : list violation :=
+Definition viol_of_fact (nm : names) (fs : list fact) (d : discipline) (m : emap) (cs : list id) (x : fact) : list violation :=
   match x with
   | FAccess f st fld k held b p =>
       match elookup m f with
       | None => []                                     (* not reachable from a concurrent root *)
       | Some hf =>
           if exempt cs f b then []
-          else match class_of d st fld with
+          else match class_of nm d st fld with
                | None => [VUndeclared f st fld p]
                | Some (Guarded l) =>
-                   if holds (held ++ hf) l (need_of k) then [] else [VUnguarded f st fld k p]
+                   if holds (held ++ hf) (lock_id nm l) (need_of k) then [] else [VUnguarded f st fld k p]
                | Some Immutable => match k with Wr => [VImmutableWrite f st fld p] | Rd => [] end
                | Some (ByOrder _) => []
                | Some (Confined _) => []
                end
       end
   | FUnbalanced f l p => [VUnbalanced f l p]
-  | FChan f ChClose st fld _ p => if close_listed fs d f st fld then [] else [VClose f st fld p]
+  | FChan f ChClose st fld _ p => if close_listed nm fs d f st fld then [] else [VClose f st fld p]
   | _ => []
   end.
 
-Definition check_with (fs : list fact) (d : discipline) (m : emap) (cs : list str) : list violation :=
-  flat_map (viol_of_fact fs d m cs) fs
-  ++ (if eh_ok fs m then [] else [VAnalysis (bs "entry-held map is not closed under the call edges")])
-  ++ (if ctor_ok fs d cs then [] else [VAnalysis (bs "construction-phase set is not stable")]).
+Definition check_with (nm : names) (fs : list fact) (d : discipline) (m : emap) (cs : list id) : list violation :=
+  flat_map (viol_of_fact nm fs d m cs) fs
+  ++ (if eh_ok fs m then [] else [VAnalysis 1])
+  ++ (if ctor_ok nm fs d cs then [] else [VAnalysis 2]).
 
-Definition check_guarded (fs : list fact) (d : discipline) : list violation :=
-  check_with fs d (entry_held fs) (ctor_set fs d).
+Definition check_guarded (nm : names) (fs : list fact) (d : discipline) : list violation :=
+  check_with nm fs d (entry_held fs) (ctor_set nm fs d).
 
 (** * Lock order *)
 
-Definition lmap := list (str * list lockid).
+Definition lmap := list (id * list lockid).
 
-Fixpoint llookup (m : lmap) (f : str) : list lockid :=
+Fixpoint llookup (m : lmap) (f : id) : list lockid :=
   match m with
   | [] => []
-  | (g, h) :: m' => if str_eqb g f then h else llookup m' f
+  | (g, h) :: m' => if N.eqb g f then h else llookup m' f
+  end.
+
+Fixpoint lupdate (m : lmap) (f : id) (h : list lockid) : lmap :=
+  match m with
+  | [] => [(f, h)]
+  | (g, h') :: m' => if N.eqb g f then (g, h) :: m' else (g, h') :: lupdate m' f h
   end.
 
 Definition mem_lock (l : lockid) (ls : list lockid) : bool := existsb (lock_eqb l) ls.
@@ -256,15 +285,9 @@ Definition mem_lock (l : lockid) (ls : list lockid) : bool := existsb (lock_eqb 
 Definition add_locks (new acc : list lockid) : list lockid :=
   fold_left (fun a l => if mem_lock l a then a else a ++ [l]) new acc.
 
-Fixpoint lupdate (m : lmap) (f : str) (h : list lockid) : lmap :=
-  match m with
-  | [] => [(f, h)]
-  | (g, h') :: m' => if str_eqb g f then (g, h) :: m' else (g, h') :: lupdate m' f h
-  end.
-
 (** locks that MAY be held at the entry of a function (union over call paths);
     trusted only through [may_ok] *)
-Definition may_pass (es : list (str * str * list hlock * base)) (m : lmap) : lmap :=
+Definition may_pass (es : list (id * id * list hlock * base)) (m : lmap) : lmap :=
   fold_left (fun m e => match e with (c, g, h, _) =>
                           lupdate m g (add_locks (map fst h ++ llookup m c) (llookup m g)) end) es m.
 Definition may_held (fs : list fact) : lmap := iter eh_fuel (may_pass (call_edges fs)) [].
@@ -290,7 +313,7 @@ Definition order_edges (fs : list fact) : list (lockid * lockid) := order_edges_
 Definition rmap := list (lockid * nat).
 Fixpoint rlookup (r : rmap) (l : lockid) : nat :=
   match r with
-  | [] => 0
+  | [] => O
   | (k, n) :: r' => if lock_eqb k l then n else rlookup r' l
   end.
 Fixpoint rset (r : rmap) (l : lockid) (n : nat) : rmap :=
@@ -311,46 +334,37 @@ Definition lock_order_acyclic (fs : list fact) : bool :=
 
 (** * Statistics for the evidence file *)
 
-Definition count {A} (p : A -> bool) (l : list A) : nat := length (filter p l).
+Definition count {A} (p : A -> bool) (l : list A) : N := N.of_nat (length (filter p l)).
 
 Record stats := mkStats {
-  n_funcs : nat; n_accesses : nat; n_reachable_accesses : nat; n_guarded_checked : nat;
-  n_exempt_local : nat; n_by_rule : nat; n_calls : nat; n_roots : nat; n_go : nat;
-  n_acquires : nat; n_order_edges : nat; n_chan : nat; n_sync : nat; n_reachable_funcs : nat; n_ctor_funcs : nat
+  n_funcs : N; n_accesses : N; n_reachable_accesses : N; n_guarded_checked : N;
+  n_exempt_local : N; n_by_rule : N; n_immutable : N; n_calls : N; n_roots : N; n_go : N;
+  n_acquires : N; n_order_edges : N; n_chan : N; n_sync : N; n_reachable_funcs : N; n_ctor_funcs : N
 }.
 
-Definition stats_of (fs : list fact) (d : discipline) : stats :=
-  let m := entry_held fs in
-  let cs := ctor_set fs d in
-  let reach x := match x with FAccess f _ _ _ _ _ _ => match elookup m f with Some _ => true | None => false end | _ => false end in
-  let checked x := match x with
-                   | FAccess f st fld _ _ b _ =>
-                       match elookup m f with
-                       | Some _ => negb (exempt cs f b) &&
-                                   match class_of d st fld with Some (Guarded _) => true | _ => false end
-                       | None => false end
-                   | _ => false end in
-  let ex x := match x with
-              | FAccess f _ _ _ _ b _ => match elookup m f with Some _ => exempt cs f b | None => false end
-              | _ => false end in
-  let rule x := match x with
-                | FAccess f st fld _ _ b _ =>
-                    match elookup m f with
-                    | Some _ => negb (exempt cs f b) &&
-                                match class_of d st fld with Some (ByOrder _) => true | Some (Confined _) => true | _ => false end
-                    | None => false end
-                | _ => false end in
-  mkStats (length (funcs fs))
+Definition stats_with (nm : names) (fs : list fact) (d : discipline) (m : emap) (cs : list id) (edges : list (lockid * lockid)) : stats :=
+  let reachable f := match elookup m f with Some _ => true | None => false end in
+  let cls x (want : fclass -> bool) :=
+      match x with
+      | FAccess f st fld _ _ b _ =>
+          reachable f && negb (exempt cs f b) &&
+          match class_of nm d st fld with Some c => want c | None => false end
+      | _ => false end in
+  mkStats (N.of_nat (length (funcs fs)))
           (count (fun x => match x with FAccess _ _ _ _ _ _ _ => true | _ => false end) fs)
-          (count reach fs) (count checked fs) (count ex fs) (count rule fs)
+          (count (fun x => match x with FAccess f _ _ _ _ _ _ => reachable f | _ => false end) fs)
+          (count (fun x => cls x (fun c => match c with Guarded _ => true | _ => false end)) fs)
+          (count (fun x => match x with FAccess f _ _ _ _ b _ => reachable f && exempt cs f b | _ => false end) fs)
+          (count (fun x => cls x (fun c => match c with ByOrder _ => true | Confined _ => true | _ => false end)) fs)
+          (count (fun x => cls x (fun c => match c with Immutable => true | _ => false end)) fs)
           (count (fun x => match x with FCall _ _ _ _ _ => true | _ => false end) fs)
           (count (fun x => match x with FRoot _ _ => true | _ => false end) fs)
           (count (fun x => match x with FGo _ _ _ => true | _ => false end) fs)
           (count (fun x => match x with FAcquire _ _ _ _ _ => true | _ => false end) fs)
-          (length (order_edges fs))
+          (N.of_nat (length edges))
           (count (fun x => match x with FChan _ _ _ _ _ _ => true | _ => false end) fs)
           (count (fun x => match x with FSync _ _ _ _ => true | _ => false end) fs)
-          (length m) (length cs).
+          (N.of_nat (length m)) (N.of_nat (length cs)).
 
 (** distinct order edges, for the report *)
 Definition edge_eqb (a b : lockid * lockid) : bool := lock_eqb (fst a) (fst b) && lock_eqb (snd a) (snd b).
@@ -360,13 +374,23 @@ Fixpoint dedup_edges (es : list (lockid * lockid)) : list (lockid * lockid) :=
   | e :: es' => if existsb (edge_eqb e) es' then dedup_edges es' else e :: dedup_edges es'
   end.
 
+(** everything the check needs, in one evaluation *)
+Record verdict := mkVerdict {
+  v_violations : list violation; v_acyclic : bool; v_stats : stats; v_edges : list (lockid * lockid);
+  v_ctors : list id }.
+Definition verdict_of (nm : names) (fs : list fact) (d : discipline) : verdict :=
+  let m := entry_held fs in
+  let cs := ctor_set nm fs d in
+  let edges := order_edges fs in
+  mkVerdict (check_with nm fs d m cs) (lock_order_acyclic fs) (stats_with nm fs d m cs edges) (dedup_edges edges) cs.
+
 (** * The discipline of internal/server (DESIGN.md Appendix B, checked against the code) *)
 
-Definition L_router  : lockid := (bs "Router", bs "serviceLock").
-Definition L_service : lockid := (bs "Service", bs "serviceLock").
-Definition L_lb      : lockid := (bs "LoadBalancer", bs "lock").
-Definition L_target  : lockid := (bs "Target", bs "inflightLock").
-Definition L_pause   : lockid := (bs "PauseController", bs "lock").
+Definition L_router  : slock := (bs "Router", bs "serviceLock").
+Definition L_service : slock := (bs "Service", bs "serviceLock").
+Definition L_lb      : slock := (bs "LoadBalancer", bs "lock").
+Definition L_target  : slock := (bs "Target", bs "inflightLock").
+Definition L_pause   : slock := (bs "PauseController", bs "lock").
 
 Definition per_request : str := bs "created for one request / call and used by the goroutine serving it".
 Definition startup : str := bs "written while the server starts (before the goroutines that read it are started)".
@@ -449,9 +473,3 @@ Definition kamal_discipline : discipline := mkDiscipline
   [ (bs "PauseController.setState", bs "PauseController", bs "pauseChannel", 1);
     (bs "Target.HealthCheckCompleted", bs "Target", bs "becameHealthy", 1) ].
 
-(** everything the check needs, in one evaluation *)
-Record verdict := mkVerdict {
-  v_violations : list violation; v_acyclic : bool; v_stats : stats; v_edges : list (lockid * lockid);
-  v_ctors : list str }.
-Definition verdict_of (fs : list fact) (d : discipline) : verdict :=
-  mkVerdict (check_guarded fs d) (lock_order_acyclic fs) (stats_of fs d) (dedup_edges (order_edges fs)) (ctor_set fs d).
